@@ -330,3 +330,142 @@ pub fn families_surface(prop: &str, ms: &[Method]) -> Vec<Pair> {
 	}
 	v
 }
+
+// ---------------------------------------------------------------------------
+// S3 / S4: two more shapes read from the surface
+
+fn key_of(v: &Value) -> Option<String> {
+	match v {
+		Value::Number(n) => Some(n.to_string()),
+		Value::String(s) => Some(s.clone()),
+		_ => None,
+	}
+}
+
+/// (owner, trait name, trait arity, fn name, receiver is `self` (method syntax), signature)
+fn functions_of<'a>(doc: &'a Value, owners: &[&str]) -> Vec<(String, Option<String>, usize, String, &'a Value)> {
+	let mut out = Vec::new();
+	let Some(index) = doc.get("index").and_then(|i| i.as_object()) else { return out };
+	for item in index.values() {
+		let Some(name) = item.get("name").and_then(|n| n.as_str()) else { continue };
+		if !owners.contains(&name) {
+			continue;
+		}
+		let Some(impls) = item.get("inner").and_then(|i| i.get("struct")).and_then(|s| s.get("impls")).and_then(|i| i.as_array()) else { continue };
+		for iid in impls {
+			let Some(im) = key_of(iid).and_then(|k| index.get(&k)).and_then(|x| x.get("inner")).and_then(|x| x.get("impl")) else { continue };
+			if !im.get("blanket_impl").map(|b| b.is_null()).unwrap_or(true) || im.get("is_synthetic").and_then(|b| b.as_bool()).unwrap_or(false) {
+				continue;
+			}
+			let trait_name = im.get("trait").and_then(|t| t.get("path")).and_then(|p| p.as_str()).map(|s| s.rsplit("::").next().unwrap_or(s).to_string());
+			let trait_args = im.get("trait").and_then(|t| t.get("args")).and_then(|a| a.get("angle_bracketed")).and_then(|a| a.get("args")).and_then(|a| a.as_array()).map(|a| a.len()).unwrap_or(0);
+			for fid in im.get("items").and_then(|i| i.as_array()).cloned().unwrap_or_default() {
+				let Some(f) = key_of(&fid).and_then(|k| index.get(&k)) else { continue };
+				let Some(func) = f.get("inner").and_then(|i| i.get("function")) else { continue };
+				if func.get("header").and_then(|h| h.get("is_unsafe")).and_then(|b| b.as_bool()).unwrap_or(false) {
+					continue;
+				}
+				let Some(fname) = f.get("name").and_then(|n| n.as_str()) else { continue };
+				out.push((name.to_string(), trait_name.clone(), trait_args, fname.to_string(), func));
+			}
+		}
+	}
+	out.sort_by(|a, b| (&a.0, &a.1, &a.3).cmp(&(&b.0, &b.1, &b.3)));
+	out
+}
+
+fn mentions_keyless_hold(t: &Value) -> bool {
+	match t {
+		Value::Object(m) => {
+			if let Some(p) = m.get("resolved_path").and_then(|rp| rp.get("path")).and_then(|p| p.as_str()) {
+				let last = p.rsplit("::").next().unwrap_or(p);
+				if ["MutexRef", "RwLockReadRef", "RwLockWriteRef", "PoisonRef"].contains(&last) {
+					return true;
+				}
+			}
+			if m.get("generic").and_then(|g| g.as_str()) == Some("Guard") {
+				return true;
+			}
+			m.values().any(mentions_keyless_hold)
+		}
+		Value::Array(a) => a.iter().any(mentions_keyless_hold),
+		_ => false,
+	}
+}
+
+/// S3: a by-value function of a key-carrying guard whose result mentions a
+/// keyless hold type splits the guard into hold and key.  S4: a `&mut self`
+/// function of a boxed / retrying collection that can hand out `&mut Vec<lock>`
+/// lets the member list change after it was sorted / checked.
+pub fn families_surface_shapes(prop: &str, doc: &Value) -> (Vec<Pair>, usize) {
+	let mut v = Vec::new();
+	let mut seen = 0usize;
+	let region = |t: &str| format!("//<<\n{t}\n//>>");
+	if prop == "C14" {
+		for (owner, tr, _ta, name, func) in functions_of(doc, &["MutexGuard", "RwLockReadGuard", "RwLockWriteGuard", "LockGuard", "PoisonGuard"]) {
+			seen += 1;
+			let inputs = func["sig"].get("inputs").and_then(|i| i.as_array()).cloned().unwrap_or_default();
+			if inputs.len() != 1 || inputs[0][1].get("generic").and_then(|g| g.as_str()) != Some("Self") {
+				continue;
+			}
+			let output = func["sig"].get("output").cloned().unwrap_or(Value::Null);
+			if output.is_null() || !mentions_keyless_hold(&output) {
+				continue;
+			}
+			let is_self = inputs[0].get(0).and_then(|n| n.as_str()) == Some("self");
+			for lock in [LockTy::Mutex, LockTy::RwLock] {
+				let Some(h) = holder(&owner, lock) else { continue };
+				let call = if is_self { format!("g.{name}()") } else { format!("{owner}::{name}(g)") };
+				let body = format!("    let key = ThreadKey::get().unwrap();\n    {}\n    let mut g = {};\n@@\n", h.decl, h.acquire);
+				let template = format!("{PRELUDE}pub fn probe() {{\n{body}\n}}\n");
+				v.push(Pair {
+					prop: prop.into(),
+					family: "S3-surface-guard-splits-into-keyless-hold".into(),
+					name: format!("{owner}::{name}{} on {lock:?}", tr.as_ref().map(|t| format!(" ({t})")).unwrap_or_default()),
+					twin: template.replace("@@", &region(&format!("    let key = {};\n    drop(key);", h.unlock))),
+					offending: template.replace("@@", &region(&format!("    let hold = {call};\n    let again = ThreadKey::get();"))),
+					std_offending: None,
+				});
+			}
+		}
+	} else {
+		for (owner, tr, ta, name, func) in functions_of(doc, &["BoxedLockCollection", "RetryingLockCollection"]) {
+			seen += 1;
+			let inputs = func["sig"].get("inputs").and_then(|i| i.as_array()).cloned().unwrap_or_default();
+			if inputs.len() != 1 || is_self_ref(&inputs[0][1]) != Some(true) {
+				continue;
+			}
+			let output = func["sig"].get("output").cloned().unwrap_or(Value::Null);
+			let out_is_mut_ref = output.get("borrowed_ref").and_then(|b| b.get("is_mutable")).and_then(|b| b.as_bool()).unwrap_or(false);
+			if !out_is_mut_ref {
+				continue;
+			}
+			let is_self = inputs[0].get(0).and_then(|n| n.as_str()) == Some("self");
+			for (lockname, ctor) in [("Mutex", "Mutex::new(0)"), ("RwLock", "RwLock::new(0)")] {
+				let (decl, elem, twin) = if owner == "BoxedLockCollection" {
+					(format!("    let mut c = LockCollection::new(vec![{ctor}]);"), format!("{lockname}<i32>"), "    let v: &Vec<_> = c.child();\n    let _ = v.len();".to_string())
+				} else {
+					(format!("    let m = {ctor};\n    let mut c = RetryingLockCollection::try_new(vec![&m]).unwrap();"), format!("&{lockname}<i32>"), "    let v: &Vec<_> = c.child();\n    let _ = v.len();".to_string())
+				};
+				let call = match (&tr, is_self) {
+					(Some(t), _) if ["AsMut", "BorrowMut", "DerefMut", "IndexMut"].contains(&t.as_str()) => {
+						let args = if ta > 0 { format!("<{}>", vec!["_"; ta].join(", ")) } else { String::new() };
+						format!("<_ as {t}{args}>::{name}(&mut c)")
+					}
+					(_, true) => format!("c.{name}()"),
+					(_, false) => format!("{owner}::{name}(&mut c)"),
+				};
+				let template = format!("{PRELUDE}use std::ops::{{Deref, DerefMut, Index, IndexMut}};\nuse std::borrow::{{Borrow, BorrowMut}};\npub fn probe() {{\n{decl}\n@@\n}}\n");
+				v.push(Pair {
+					prop: prop.into(),
+					family: "S4-surface-member-list-handed-out-mutably".into(),
+					name: format!("{owner}::{name}{} over {lockname}", tr.as_ref().map(|t| format!(" ({t})")).unwrap_or_default()),
+					twin: template.replace("@@", &region(&twin)),
+					offending: template.replace("@@", &region(&format!("    let v: &mut Vec<{elem}> = {call};\n    let _ = v.len();"))),
+					std_offending: None,
+				});
+			}
+		}
+	}
+	(v, seen)
+}
